@@ -213,3 +213,114 @@ func describeText(b []byte) string {
 
 var _ = fasta.Fasta{}
 var _ = fastq.Fastq{}
+
+// longSizes are field lengths around the bufio (4 KiB) and scanner (64 KiB)
+// buffer sizes and beyond.
+var longSizes = []int{4000, 4090, 4095, 4096, 4097, 4100, 5000, 8191, 8192, 8193, 12000, 20000, 65535, 65536, 65537, 70000, 140000}
+
+func longSize(r *rand.Rand) int {
+	if r.IntN(4) == 0 {
+		return 4000 + r.IntN(4500)
+	}
+	return pick(r, longSizes)
+}
+
+// longText returns n bytes free of TAB/CR/LF (and of the other given bytes).
+func longText(r *rand.Rand, n int, excl *byteSet) []byte {
+	if excl == nil {
+		excl = samTextExcl
+	}
+	return randBytesExcl(r, n, excl)
+}
+
+// wellFormedLong returns a well-formed text of 1..4 records in which at least
+// one line is longer than the usual I/O buffers.
+func wellFormedLong(r *rand.Rand, format string) []byte {
+	var buf bytes.Buffer
+	n := 1 + r.IntN(3)
+	long := r.IntN(n)
+	for i := 0; i < n; i++ {
+		isLong := i == long
+		switch format {
+		case "fasta":
+			rec := genFastaRecord(r, r.IntN(200))
+			if isLong {
+				if r.IntN(2) == 0 {
+					rec.Name = randBytesExcl(r, longSize(r), fastaNameExcl)
+				} else {
+					rec.Sequence = randBytesExcl(r, longSize(r), fastaSeqExcl)
+				}
+			}
+			rec.Write(&buf)
+		case "fastq":
+			rec := genFastqRecord(r, r.IntN(100))
+			if isLong {
+				if r.IntN(3) == 0 {
+					rec.Name = randBytesExcl(r, longSize(r), noCRLF)
+				} else {
+					rec = genFastqRecord(r, longSize(r))
+				}
+			}
+			rec.Write(&buf)
+		case "sam", "samh":
+			if isLong && r.IntN(4) == 0 {
+				buf.WriteString("@CO\t" + string(longText(r, longSize(r), noCRLF)) + "\n")
+			}
+			rec := genSAM(r)
+			if isLong {
+				l := longSize(r)
+				switch r.IntN(4) {
+				case 0:
+					rec.Seq, rec.Qual = string(longText(r, l, nil)), string(longText(r, l, nil))
+				case 1:
+					rec.Qname = "q" + string(longText(r, l, nil))
+				case 2:
+					if rec.Tags == nil {
+						rec.Tags = map[string]any{}
+					}
+					rec.Tags["ZZ"] = string(longText(r, l, nil))
+				default:
+					if rec.Tags == nil {
+						rec.Tags = map[string]any{}
+					}
+					h := make([]byte, l/2)
+					for j := range h {
+						h[j] = byte(r.IntN(256))
+					}
+					rec.Tags["XH"] = h
+				}
+			}
+			rec.Write(&buf)
+		case "bed":
+			rec := genBED(r, 12)
+			if isLong {
+				if r.IntN(2) == 0 {
+					rec.Name = string(longText(r, longSize(r), nil))
+				} else {
+					cnt := 700 + r.IntN(3000)
+					rec.BlockCount = cnt
+					rec.BlockSizes = randInts(r, cnt)
+					rec.BlockStarts = randInts(r, cnt)
+				}
+			}
+			rec.Write(&buf)
+		case "newick":
+			root, nodes := randomTree(r, 1+r.IntN(6), r.IntN(4))
+			decorate(r, nodes)
+			if isLong {
+				nd := nodes[r.IntN(len(nodes))]
+				if r.IntN(2) == 0 {
+					nd.Name = string(randBytesExcl(r, longSize(r), nil))
+				} else {
+					nd.Name = string(randSeq(r, []byte("abcdefghijklmnopqrstuvwxyz"), longSize(r)))
+				}
+			}
+			m, _ := root.MarshalText()
+			buf.Write(m)
+			buf.WriteString(pick(r, treeSeparators))
+		default:
+			panic("wellFormedLong: unknown format " + format)
+		}
+	}
+	return buf.Bytes()
+}
